@@ -320,7 +320,7 @@ def sanitizer_leg(drv, merged, kind, sub, seed, shards, cases, extra=None, timeo
         if kind == "miri":
             # the interpreter is about four orders of magnitude slower: none of the big scenarios
             for k in ("wide_cases", "long_cases", "big_cases", "big_files", "long_streams", "tall", "tall_cases",
-                      "big_roundtrips", "big_cli_cases"):
+                      "big_roundtrips", "big_cli_cases", "mid"):
                 ex.setdefault(k, 0)
             # (the complete small scopes run natively in every run; 260 ADFs x 15 pipelines would take hours here)
             ex.setdefault("no_exhaustive", 1)
